@@ -1,6 +1,8 @@
 // C20 — exited threads are reclaimed: the invalid-context counter that gates the backend's clean-up.
 #include "vh_nothrow.h"
+#include "vh_noinline_quill.h"
 #include "quill/core/ThreadContextManager.h"
+#include "vh_noinline_end.h"
 using namespace quill;
 using namespace quill::detail;
 
@@ -45,4 +47,33 @@ extern "C" void h_counter_remove()
   uint64_t pending = N - 1;
   VWITNESS(pending == 256);
   VASSERT(m.has_invalid_thread_context() == (pending != 0));
+}
+
+// (race) thread exits (add_invalid_thread_context, "thread" 0) interleaved with backend reclaims
+// (remove_shared_invalidated_thread_context, "thread" 1) under the release/acquire shim: the counter must end up equal to
+// the number of pending contexts whatever value a non-RMW load of it may legally return
+static CtxSlot g_cx0, g_cx1;
+extern "C" void h_counter_race()
+{
+  ThreadContextManager& m = g_mgr.m;
+  new (&m._thread_contexts) std::vector<std::shared_ptr<ThreadContext>>(); m._thread_contexts.reserve(4);
+  new (&m._spinlock) Spinlock();
+  using CT = decltype(m._invalid_thread_context_count.load());
+  ThreadContext* c0 = &g_cx0.c; ThreadContext* c1 = &g_cx1.c;
+  *reinterpret_cast<bool*>(&c0->_valid) = false; *reinterpret_cast<bool*>(&c1->_valid) = false;
+  m._thread_contexts.push_back(std::shared_ptr<ThreadContext>(c0, nodel));
+  m._thread_contexts.push_back(std::shared_ptr<ThreadContext>(c1, nodel));
+  *reinterpret_cast<CT*>(&m._invalid_thread_context_count) = 2;       // two exited threads already counted
+  vra_register(&m._invalid_thread_context_count, sizeof(CT) * 8);
+  vra_register(&m._spinlock, 8);
+  uint32_t added = 0, removed = 0;
+  for (int i = 0; i < 4; i++)
+  {
+    if (vnd_range(0, 1) == 0) { vra_set_thread(0); m.add_invalid_thread_context(); added++; }
+    else if (removed < 2) { vra_set_thread(1); m.remove_shared_invalidated_thread_context(removed == 0 ? c0 : c1); removed++; }
+  }
+  vra_set_thread(1);
+  uint64_t now = vra_rmw(&m._invalid_thread_context_count, 1, 0, sizeof(CT) * 8, 0);      // latest value
+  VASSERT(now == 2 + added - removed);
+  VWITNESS(added == 2 && removed == 2 && vra_stale_reads() == 0);
 }
